@@ -205,7 +205,7 @@ def analyze(fn, pre, timeout, post_true=True, ctx=None, max_iter=0):
     q0, t0, u0 = SOLVER['queries'], SOLVER['time'], SOLVER['unknown']
     f0 = FLOAT_PATHS[0]
     w0 = time.perf_counter()
-    with (ctx() if ctx else nullcontext()):
+    with (ctx() if ctx else fmt_stub()):   # P2 is the default stub while tracing
         msgs = list(checkable.analyze())
     stats_out = {'real_floats': FLOAT_PATHS[0] - f0, 'paths': int(stats.get('num_paths', 0)), 'solver_queries': SOLVER['queries'] - q0,
                  'solver_time_s': round(SOLVER['time'] - t0, 4), 'solver_unknown': SOLVER['unknown'] - u0,
